@@ -283,6 +283,11 @@ class P:
                 self.next(); name = self.next()[1]; self.eat(":"); ty = self.ty(); self.eat("=")
                 e = self.expr(); self.eat(";")
                 stmts.append(("const", name, ty, e)); continue
+            if self.at("while"):
+                self.next()
+                c = self.expr(nostruct=True)
+                b = self.block()
+                stmts.append(("while", c, b)); continue
             if self.at("let"):
                 self.next()
                 p = self.pat()
@@ -310,7 +315,8 @@ class P:
 def parse_fn(src, name):
     """returns (params [(name, type)], ret type, body AST)"""
     src = re.sub(r"//[^\n]*", "", src)
-    src = re.sub(r'"(?:[^"\\]|\\.)*"', '0', src)
+    src = re.sub(r"\bb?'(?:[^'\\\n]|\\.)'", "0", src)          # char / byte literals (keeps lifetimes)
+    src = re.sub(r'"(?:[^"\\]|\\.)*"', '0', src, flags=re.S)
     m = None
     for cand in re.finditer(r"fn\s+" + re.escape(name) + r"\s*\(", src):
         nb = src.find("{", cand.end())
@@ -333,7 +339,12 @@ def parse_fn(src, name):
         p.opt("mut")
         if p.at("self"):
             p.next(); params.append(("self", "Self")); p.opt(","); continue
-        pn = p.next()[1]; p.eat(":"); params.append((pn, p.ty())); p.opt(",")
+        pn = p.next()[1]; p.eat(":")
+        is_mut_ref = p.at("&") and p.peek(1)[1] == "mut"
+        params.append((pn, p.ty()))
+        if is_mut_ref:
+            MUT_PARAMS.setdefault(name, []).append(pn)
+        p.opt(",")
     p.eat(")")
     ret = "()"
     if p.opt("->"):
@@ -342,6 +353,10 @@ def parse_fn(src, name):
 
 
 # ----------------------------------------------------------------------------- back end
+MUT_PARAMS = {}     # fn name -> names of its `&mut` parameters (their final values are returned, before the declared result)
+LOOP_FUEL = {}      # (fn name, loop index) -> fuel constant of the generated loop function
+
+
 class Unsupported(Exception):
     pass
 
@@ -390,6 +405,13 @@ class Emit:
     def fresh(self):
         self.tmp += 1
         return f"t{self.tmp}"
+
+    def wrap_ret(self, x):
+        """the value a `return`/tail produces, preceded by the final values of the `&mut` parameters"""
+        mp = MUT_PARAMS.get(self.fname, [])
+        if not mp or getattr(self, "in_loop", False):
+            return x
+        return "(" + ", ".join(mp + ([x] if x is not None else [])) + ")"
 
     # ---- types of expressions (light-weight inference)
     def type_of(self, e, hint=None):
@@ -678,11 +700,15 @@ class Emit:
                 return ls + [f"let {v} ← {f} ({xa}) ({xb})"], v
             raise Unsupported(f"{op} on {t}")
         if op in ("&", "|", "^"):
+            if signed(t) and op == "&" and b[0] == "lit" and b[1] == 1:
+                return ls, f"(({xa}) % 2)"          # two's complement: x & 1 = x mod 2 (Euclidean)
             if signed(t):
                 raise Unsupported("bit operation on a signed value")
             lo = {"&": "&&&", "|": "|||", "^": "^^^"}[op]
             return ls, f"(({xa}) {lo} ({xb}))"
         if op == "<<":
+            if signed(t) and b[0] == "lit" and b[1] < bits(t):
+                return ls, f"(IntTy.{t}.cast (({xa}) * 2 ^ {xb}))"   # shifted-out bits are dropped
             if signed(t):
                 raise Unsupported("<< on signed")
             if b[0] == "lit" and b[1] < bits(t):
@@ -728,6 +754,8 @@ class Emit:
             return ls, f"(Int.natAbs ({xr}))"
         if m == "cmp":
             return ls, f"(compare ({xr}) ({xs[0]}))"
+        if m == "signum" and signed(t):
+            return ls, f"(Int.sign ({xr}))"
         if m == "is_negative":
             return ls, f"decide ({xr} < 0)"
         if m == "is_positive":
@@ -766,6 +794,8 @@ class Emit:
                 self.needs_tm = True
                 tm = "tm "
             return ls + [f"let {v} ← K.{n} prof {tm}" + " ".join(xs)], v
+        if not EXTERNAL[n][3]:
+            return ls, f"({EXTERNAL[n][2]} " + " ".join(xs) + ")"
         return ls + [f"let {v} ← {EXTERNAL[n][2]} " + " ".join(xs)], v
 
     # ---- statements / blocks (with early return: every block is translated to a term of type Outcome ret)
@@ -813,6 +843,43 @@ class Emit:
             else:
                 out += f"{pad}let {self.pat_lean(p, t)} := {x}\n"
             return out + self.stmts_term(rest, tail, ind, k)
+        if kind == "while":
+            _, c, body = s
+            state = [v for v in self.assigned_vars(body) if v in self.env]
+            if not state:
+                raise Unsupported("while loop without loop-carried variables")
+            fv = [v for v in self.free_vars(c, body) if v not in state]
+            self.loop_count = getattr(self, "loop_count", 0) + 1
+            lname = f"{self.fname}.loop{self.loop_count}"
+            fuel = LOOP_FUEL.get((self.fname, self.loop_count), 64)
+            st_ty = ("tuple", [self.env[v] for v in state]) if len(state) > 1 else self.env[state[0]]
+            tup = "(" + ", ".join(state) + ")" if len(state) > 1 else state[0]
+            saved_ret, saved_tm, saved_env = self.ret, self.needs_tm, dict(self.env)
+            self.ret, self.needs_tm = st_ty, False
+            saved_loop, self.in_loop = getattr(self, "in_loop", False), True
+            self.cur_ind = 2
+            lc, xc = self.cond(c)
+            args = " ".join(fv)
+
+            def rec(i):
+                return "  " * i + f"{lname} prof {args + ' ' if args else ''}fuel {' '.join(state)}\n"
+            btxt = self.stmts_term(list(body[1]), None, 3, rec)
+            if self.needs_tm:
+                raise Unsupported("loop body consults the rounding mode")
+            self.ret, self.needs_tm, self.env = saved_ret, saved_tm, saved_env
+            self.in_loop = saved_loop
+            ps = " ".join(f"({v} : {lean_ty(self.env[v])})" for v in fv)
+            sig = " → ".join(["Nat"] + [lean_ty(self.env[v]) for v in state] + [f"Outcome {lean_ty(st_ty)}"])
+            aux = [f"/-- loop {self.loop_count} of `fn {self.fname}`: fuel-bounded recursion, state = ({', '.join(state)}) -/",
+                   f"def {lname} (prof : Profile) {ps} : {sig}",
+                   "  | 0, " + ", ".join("_" for _ in state) + " => Outcome.panic .other",
+                   "  | fuel + 1, " + ", ".join(state) + " => do"]
+            aux += ["    " + l for l in lc]
+            aux += [f"    if {xc} then", btxt.rstrip("\n"), "    else", f"      pure ({tup})", ""]
+            self.aux = getattr(self, "aux", []) + ["\n".join(aux)]
+            out = f"{pad}let {tup} ← {lname} prof {args} {fuel} {' '.join(state)}\n".replace("  ", " ") if False else \
+                f"{pad}let {tup} ← {lname} prof {args + ' ' if args else ''}{fuel} {' '.join(state)}\n"
+            return out + self.stmts_term(rest, tail, ind, k)
         if kind == "assign":
             _, op, lhs, rhs = s
             if lhs[0] != "path" or len(lhs[1]) != 1:
@@ -828,13 +895,30 @@ class Emit:
         if kind == "expr":
             e = s[1]
             if e[0] == "return":
-                ls, x = self.ex(e[1], self.ret)
-                return "".join(f"{pad}{l}\n" for l in ls) + f"{pad}pure ({x})\n"
+                ls, x = self.ex(e[1], self.decl_ret if hasattr(self, "decl_ret") else self.ret)
+                return "".join(f"{pad}{l}\n" for l in ls) + f"{pad}pure ({self.wrap_ret(x)})\n"
             if e[0] == "if":
                 # statement `if` (no value): may assign variables or return early
                 return self.if_stmt(e, rest, tail, ind, k)
             if e[0] == "macro":
                 return self.macro_stmt(e, ind) + self.stmts_term(rest, tail, ind, k)
+            if e[0] == "call" and e[1][-1] in MUT_PARAMS and (e[1][-1] in self.sigs or e[1][-1] in EXTERNAL):
+                # `f(&mut a, &mut b, …);` — the callee returns the final values of its `&mut` parameters
+                n = e[1][-1]
+                ptys = (self.sigs.get(n) or EXTERNAL[n])[0]
+                ls, xs, outs = [], [], []
+                for a, (pn, pt) in zip(e[2], ptys):
+                    l, x = self.ex(a, pt)
+                    ls += l; xs.append(f"({x})")
+                    if pn in MUT_PARAMS[n]:
+                        if a[0] != "path":
+                            raise Unsupported("&mut argument that is not a variable")
+                        outs.append(a[1][0])
+                tup = "(" + ", ".join(outs) + ")" if len(outs) > 1 else outs[0]
+                head = f"K.{n} prof" if n in self.sigs else EXTERNAL[n][2]
+                bind = "←" if (n in self.sigs or EXTERNAL[n][3]) else ":="
+                out = "".join(f"{pad}{l}\n" for l in ls) + f"{pad}let {tup} {bind} {head} " + " ".join(xs) + "\n"
+                return out + self.stmts_term(rest, tail, ind, k)
             if e[0] == "match":
                 # statement `match`: arms may return early; the rest of the function follows every arm
                 _, scr, arms = e
@@ -856,17 +940,54 @@ class Emit:
         raise Unsupported(kind)
 
     def assigned_vars(self, blk):
+        """variables (already in scope) assigned anywhere inside the block, in order of first assignment"""
         out = []
-        for s in blk[1]:
-            if s[0] == "assign" and s[2][0] == "path":
-                n = s[2][1][0]
-                if n not in out:
-                    out.append(n)
-            if s[0] == "expr" and s[1][0] == "if":
-                for b in (s[1][2], s[1][3]):
-                    if b:
-                        out += [v for v in self.assigned_vars(b) if v not in out]
+
+        def add(n):
+            if n not in out:
+                out.append(n)
+
+        def walk_expr(e):
+            if not isinstance(e, tuple) or not e:
+                return
+            if e[0] == "block":
+                walk_block(e)
+            elif e[0] == "if":
+                walk_expr(e[2])
+                if e[3]:
+                    walk_expr(e[3])
+            elif e[0] == "match":
+                for _, body in e[2]:
+                    walk_expr(body)
+
+        def walk_block(b):
+            for st in b[1]:
+                if st[0] == "assign" and st[2][0] == "path":
+                    add(st[2][1][0])
+                elif st[0] == "expr":
+                    walk_expr(st[1])
+                elif st[0] == "while":
+                    walk_block(st[2])
+            if b[2] is not None:
+                walk_expr(b[2])
+        walk_block(blk)
         return out
+
+    def free_vars(self, *asts):
+        """names of variables in scope that occur in the given ASTs (order of the scope)"""
+        seen = set()
+
+        def walk(x):
+            if isinstance(x, tuple) and len(x) == 2 and x[0] == "path" and isinstance(x[1], list):
+                if len(x[1]) == 1:
+                    seen.add(x[1][0])
+                return
+            if isinstance(x, (tuple, list)):
+                for y in x:
+                    walk(y)
+        for a in asts:
+            walk(a)
+        return [n for n in self.env if n in seen]
 
     def has_return(self, blk):
         return any(s[0] == "expr" and s[1][0] == "return" for s in blk[1]) or (blk[2] is not None and blk[2][0] == "return")
@@ -907,6 +1028,16 @@ class Emit:
                 p.eat(","); b = p.expr()
                 ls, x = self.ex(("bin", "!=" if name.endswith("ne") else "==", a, b), "bool")
             return "".join(f"{pad}{l}\n" for l in ls) + f"{pad}debugAssert prof ({x})\n"
+        if name in ("assert", "assert_ne", "assert_eq"):
+            toks = e[2] + [("eof", None, None)]
+            p = P(toks)
+            a = p.expr()
+            if name == "assert":
+                ls, x = self.ex(a, "bool")
+            else:
+                p.eat(","); b = p.expr()
+                ls, x = self.ex(("bin", "!=" if name.endswith("ne") else "==", a, b), "bool")
+            return "".join(f"{pad}{l}\n" for l in ls) + f"{pad}Fpdec.assert ({x})\n"
         raise Unsupported(f"macro {name}")
 
     def tail_term(self, e, ind, k):
@@ -929,11 +1060,11 @@ class Emit:
             return f"{pad}Outcome.panic .overflow\n"
         if e[0] == "macro" and e[1] == "unreachable":
             return f"{pad}Outcome.panic .unwrap\n"
-        ls, x = self.ex(e, self.ret)
+        ls, x = self.ex(e, self.decl_ret if hasattr(self, "decl_ret") and not getattr(self, "in_loop", False) else self.ret)
         out = "".join(f"{pad}{l}\n" for l in ls)
         if k is not None:
             raise Unsupported("value tail with continuation")
-        return out + f"{pad}pure ({x})\n"
+        return out + f"{pad}pure ({self.wrap_ret(x)})\n"
 
     def match_term(self, e, ind, k):
         pad = "  " * ind
@@ -1000,7 +1131,9 @@ class Emit:
 
 # ----------------------------------------------------------------------------- driver
 GROUP_IMPORTS = {"KPow": ["Fpdec.Gen.Consts"], "KDivRounded": ["Fpdec.Gen.KRound", "Fpdec.Gen.KPow", "Fpdec.Model.Core"],
-                 "KDecDiv": ["Fpdec.Gen.KDivRounded"], "KDecMul": ["Fpdec.Gen.KDivRounded", "Fpdec.Model.Decimal"]}
+                 "KDecDiv": ["Fpdec.Gen.KDivRounded"], "KDecMul": ["Fpdec.Gen.KDivRounded", "Fpdec.Model.Decimal"], "KNorm": [],
+                 "KFloat": ["Fpdec.Gen.KNorm", "Fpdec.Gen.Consts", "Fpdec.Model.Core"]}
+LOOP_FUEL.update({("normalize", 1): 256, ("approx_rational", 1): 32})
 KERNELS = [
     # (group, file, fn name, self type for trait methods)
     ("KPow", "fpdec-core/src/powers_of_ten.rs", "ten_pow", None),
@@ -1015,6 +1148,8 @@ KERNELS = [
     ("KDivRounded", "fpdec-core/src/rounding.rs", "i128_mul_div_ten_pow_rounded", None),
     ("KDecDiv", "src/binops/div_rounded.rs", "checked_div_rounded", None),
     ("KDecMul", "src/binops/mul_rounded.rs", "checked_mul_rounded", None),
+    ("KNorm", "src/lib.rs", "normalize", None),
+    ("KFloat", "src/from_float.rs", "approx_rational", None),
     ("KWide", "fpdec-core/src/lib.rs", "u128_hi", None),
     ("KWide", "fpdec-core/src/lib.rs", "u128_lo", None),
     ("KWide", "fpdec-core/src/lib.rs", "u128_mul_u128", None),
@@ -1030,10 +1165,17 @@ KERNELS = [
 
 # functions that generated code may call but that are modelled by hand: params, return type, Lean head (with its fixed arguments)
 EXTERNAL = {
+    # name: (params, return type, Lean head, monadic?)
     "i128_shifted_div_mod_floor": ([("x", "i128"), ("p", "u8"), ("y", "i128")], ("Option", ("tuple", ["i128", "i128"])),
-                                   "Model.i128ShiftedDivModFloor prof"),
+                                   "Model.i128ShiftedDivModFloor prof", True),
     "i256_div_mod_floor": ([("x1", "i128"), ("x2", "i128"), ("y", "i128")], ("Option", ("tuple", ["i128", "i128"])),
-                           "Model.i256DivModFloor prof"),
+                           "Model.i256DivModFloor prof", True),
+    "i128_magnitude": ([("i", "i128")], "u8", "Model.i128Magnitude", False),
+}
+# named constants the kernels refer to: (type, value placeholder, Lean name in Gen/Consts.lean — regenerated by fpextract.py)
+GLOBAL_CONSTS = {
+    "*": {"MAX_N_FRAC_DIGITS": ("u8", None, "MAX_N_FRAC_DIGITS")},
+    "src/from_float.rs": {"MAGN_I128_MAX": ("u8", None, "FROM_FLT_MAGN_I128_MAX")},
 }
 # constant tables (element type, Lean name — generated by tools/fpextract.py from the same source)
 ARRAYS = {"POWERS_OF_10": ("i128", "Gen.POWERS_OF_10")}
@@ -1078,12 +1220,25 @@ def translate(repo):
         if name not in failed:
             try:
                 params, ret, body, _ = parsed[name]
-                em = Emit(name, params, ret, sigs, {}, selfty)
-                term = em.block_term(body, 1)
+                mp = MUT_PARAMS.get(name, [])
+                eff_ret = ret
+                kfin = None
+                if mp:
+                    mtys = [t for n_, t in params if n_ in mp]
+                    eff_ret = ("tuple", mtys + ([ret] if ret != "()" else []))
+                    if len(eff_ret[1]) == 1:
+                        eff_ret = eff_ret[1][0]
+                    if ret == "()":
+                        kfin = (lambda i, mp=mp: "  " * i + "pure ((" + ", ".join(mp) + "))\n")
+                em = Emit(name, params, eff_ret, sigs, {**GLOBAL_CONSTS["*"], **GLOBAL_CONSTS.get(f, {})}, selfty)
+                em.decl_ret = ret
+                term = em.block_term(body, 1, kfin)
+                ret = eff_ret
+                sigs[name] = (params, eff_ret, None)
                 ps = " ".join(f"({n} : {lean_ty(t)})" for n, t in params)
                 tmarg = "(tm : Mode) " if em.needs_tm else ""
                 TM_NEEDED[name] = em.needs_tm
-                lines = [f"/-- {f}: `fn {name}` -/",
+                lines = list(getattr(em, "aux", [])) + [f"/-- {f}: `fn {name}` -/",
                          f"def {name} (prof : Profile) {tmarg}{ps} : Outcome {lean_ty(ret)} := do",
                          term.rstrip("\n"), ""]
             except Exception as e:                  # noqa: BLE001
